@@ -1,6 +1,7 @@
 package scen
 
 import (
+	"context"
 	"encoding/json"
 	"fmt"
 	"strings"
@@ -23,6 +24,7 @@ type faultKind struct {
 	signal bool // a failure signal: errors must be non-empty
 	// transport-level
 	transport string
+	err       error
 	status    int
 	body      string
 	// answer-level: rewrite element pos of the decoded answer array (or the whole body)
@@ -104,6 +106,8 @@ func faultKinds(skip int) []faultKind {
 	return []faultKind{
 		{name: "transport-error-before", signal: true, transport: "ErrBefore"},
 		{name: "transport-error-after", signal: true, transport: "ErrAfter"},
+		{name: "transport-context-canceled", signal: true, transport: "ErrAfter", err: context.Canceled},
+		{name: "transport-deadline-exceeded", signal: true, transport: "ErrBefore", err: context.DeadlineExceeded},
 		{name: "status-500-with-body", signal: true, transport: "Status", status: 500, body: `{"errors":[{"message":"internal"}]}`},
 		{name: "status-404-empty", signal: true, transport: "Status", status: 404, body: ``},
 		{name: "status-502-with-valid-answer-body", signal: true, transport: "StatusKeepBody", status: 502},
@@ -139,6 +143,12 @@ func faultKinds(skip int) []faultKind {
 		}},
 		{name: "element-errors-empty-without-data", signal: true, elem: func(el map[string]interface{}) (map[string]interface{}, bool) {
 			return map[string]interface{}{"errors": []interface{}{}}, true
+		}},
+		{name: "element-errors-list-of-null", signal: true, elem: func(el map[string]interface{}) (map[string]interface{}, bool) {
+			return map[string]interface{}{"errors": []interface{}{nil}}, true
+		}},
+		{name: "element-data-null-errors-list-of-null", signal: true, elem: func(el map[string]interface{}) (map[string]interface{}, bool) {
+			return map[string]interface{}{"data": nil, "errors": []interface{}{nil, nil}}, true
 		}},
 		{name: "element-errors-null-without-data", signal: true, elem: func(el map[string]interface{}) (map[string]interface{}, bool) {
 			return map[string]interface{}{"errors": nil, "extensions": map[string]interface{}{"x": 1.0}}, true
@@ -313,7 +323,7 @@ func scenFLT(s *sched.Sim, cfg Config, res *Result) {
 			case "ReadErr":
 				return &simnet.Fault{Kind: "ReadErr", At: 5}
 			}
-			return &simnet.Fault{Kind: k.transport}
+			return &simnet.Fault{Kind: k.transport, Err: k.err}
 		}
 		return &simnet.Fault{Kind: k.name, Mutate: func(b []byte) []byte {
 			if k.whole != nil {
@@ -466,7 +476,7 @@ func scenFLT(s *sched.Sim, cfg Config, res *Result) {
 							}
 						}
 						gotLeaves := map[string]bool{}
-						gql.Leaves(got.Data, gotLeaves)
+						gql.Leaves(withoutGatewayAnswered(got.Data, op), gotLeaves)
 						for _, l := range gql.SortedKeys(gotLeaves) {
 							if !have[l] {
 								fail("invented-value", "data contains %s which no service returned for this operation", clipStr(l, 120))
@@ -515,4 +525,23 @@ func scenFLT(s *sched.Sim, cfg Config, res *Result) {
 	}
 	res.Sample = map[string]any{"services": w.ServiceSDL, "gateway": gc.String(), "operation": op.Text, "variables": op.Vars, "call_sites": nSites,
 		"fault_cases_run": len(cases), "first_cases": cs}
+}
+
+// withoutGatewayAnswered drops the root keys which the gateway answers itself (__typename,
+// __type, __schema): their values come from no service.
+func withoutGatewayAnswered(d interface{}, op *gql.Op) interface{} {
+	data, isMap := d.(map[string]interface{})
+	if !isMap || op == nil || op.Def == nil {
+		return d
+	}
+	out := make(map[string]interface{}, len(data))
+	for k, v := range data {
+		out[k] = v
+	}
+	for _, sel := range op.Def.SelectionSet {
+		if f, ok := sel.(*ast.Field); ok && strings.HasPrefix(f.Name, "__") {
+			delete(out, f.Alias)
+		}
+	}
+	return out
 }
